@@ -109,6 +109,7 @@ def _run_shard(job):
     out = {"sub": job["sub"], "shard": job["shard"], "evaluations": 0, "digests": [],
            "classes": {}, "samples": [], "failures": [], "known": {}, "harness": None,
            "budget_hit": False, "rounds": 0}
+    cov = _start_coverage(job)
     try:
         env.assert_repo()
         prop = load_prop(job["pid"])
@@ -128,8 +129,25 @@ def _run_shard(job):
         raise
     except BaseException:  # noqa: BLE001 - anything here is a harness problem
         out["harness"] = traceback.format_exc()
+    if cov is not None:
+        cov.stop()
+        cov.save()
     out["wall"] = time.time() - t0
     return out
+
+
+def _start_coverage(job):
+    """Generator-health aid (tools/coverage_report.sh): with VF_COVERAGE=<dir> every shard records which lines and
+    branches of the package under test it executed.  Never used by a registered command."""
+    d = os.environ.get("VF_COVERAGE")
+    if not d:
+        return None
+    import coverage
+    os.makedirs(d, exist_ok=True)
+    cov = coverage.Coverage(data_file=os.path.join(d, f"cov.{job['pid']}.{job['sub']}.{job['shard']}"),
+                            branch=True, include=[os.path.join(env.repo_root(), "flamapy", "*")])
+    cov.start()
+    return cov
 
 
 class _ShardState:
